@@ -54,6 +54,9 @@ func (s vfStep) String() string {
 		if s.DelPfx != "" {
 			return "delprefix(" + s.DelPfx + ")"
 		}
+		if len(s.KVs) > 8 {
+			return fmt.Sprintf("txn{put %s .. %s (%d filler keys)}", s.KVs[0].Key, s.KVs[len(s.KVs)-1].Key, len(s.KVs))
+		}
 		var ps []string
 		for _, kv := range s.KVs {
 			if kv.Val == nil {
@@ -82,6 +85,17 @@ var vfKeysUnder = []string{"/w/k0", "/w/k1", "/w/k2", "/wk3", "/w/k0x"}
 var vfKeysOutside = []string{"/x/k0", "/v", "/x/w/k0"}
 var vfVals = []string{"a", "b", "c", ""}
 
+// wide prefix: so many filler keys under the watched prefix that a paginated read needs several
+// requests; the hot keys are the lexicographically first, a middle and the last key of the prefix
+const (
+	vfFillerMark = "/w/f"
+	vfFillerVal  = "x"
+	vfHotFirst   = "/w/a-first"
+	vfHotLast    = "/wz-last"
+)
+
+func vfFillerKey(i int) string { return fmt.Sprintf("/w/f%03d", i) }
+
 type vfHistory struct {
 	Steps        []vfStep
 	PullMs       int
@@ -90,6 +104,8 @@ type vfHistory struct {
 	ShortTimeout bool   // the syncing member has cluster-request-timeout 500ms instead of 10s
 	OutageMs     int
 	TailBurst    int
+	Wide         int // number of filler keys under the watched prefix (0 = narrow)
+	WideBurst    int
 	k0AtFault    bool
 	states       []map[string]string
 	nSameVal     int
@@ -217,7 +233,47 @@ func vfGenHistory(rt *rapid.T) *vfHistory {
 	cur := map[string]string{}
 	h.states = []map[string]string{cur}
 	cur = vfGenWrites(rt, h, cur, rapid.IntRange(0, 5).Draw(rt, "nPre"), "pre.")
+	// wide-prefix class (a share of the cases): 150-400 filler keys are put under the watched prefix
+	// in batches before Sync* is called ...
+	if rapid.SampledFrom([]int{1, 0, 0, 0, 0}).Draw(rt, "wide") == 1 {
+		h.Wide = rapid.IntRange(150, 400).Draw(rt, "wideKeys")
+		for from := 0; from < h.Wide; from += 100 {
+			cur = vfCopyState(cur)
+			var kvs []vfKV
+			for i := from; i < from+100 && i < h.Wide; i++ {
+				v := vfFillerVal
+				kvs = append(kvs, vfKV{vfFillerKey(i), &v})
+				cur[vfFillerKey(i)] = v
+			}
+			h.states = append(h.states, cur)
+			h.Steps = append(h.Steps, vfStep{Op: "write", KVs: kvs, state: len(h.states) - 1})
+		}
+	}
 	h.Steps = append(h.Steps, vfStep{Op: "sync"})
+	if h.Wide > 0 {
+		// ... and right after it a burst of transactions that change the first, a middle and the
+		// last key of the prefix together (every state is distinguishable by its counter): a pull
+		// that is not one consistent read shows a content the store never had
+		h.WideBurst = rapid.IntRange(15, 40).Draw(rt, "wideBurst")
+		mid := vfFillerKey(h.Wide / 2)
+		for i := 0; i < h.WideBurst; i++ {
+			v := fmt.Sprint(i + 1)
+			kvs := []vfKV{{vfHotFirst, &v}, {mid, &v}, {vfHotLast, &v}}
+			if i%5 == 4 {
+				kvs[1] = vfKV{mid, nil} // now and then the middle key disappears in the same transaction
+			}
+			cur = vfCopyState(cur)
+			for _, kv := range kvs {
+				if kv.Val == nil {
+					delete(cur, kv.Key)
+				} else {
+					cur[kv.Key] = *kv.Val
+				}
+			}
+			h.states = append(h.states, cur)
+			h.Steps = append(h.Steps, vfStep{Op: "write", KVs: kvs, state: len(h.states) - 1})
+		}
+	}
 	cur = vfGenWrites(rt, h, cur, rapid.IntRange(0, 18).Draw(rt, "nA"), "a.")
 	// the syncing member: request timeout 10 s, or 500 ms (then a pull issued during an outage FAILS
 	// instead of waiting for the server to come back)
@@ -338,8 +394,16 @@ func vfMapStr(m map[string]string) string {
 	}
 	sort.Strings(ks)
 	var ps []string
+	fillers := 0
 	for _, k := range ks {
+		if strings.Contains(k, vfFillerMark) && m[k] == vfFillerVal {
+			fillers++ // the filler keys of a wide prefix never change: only counted
+			continue
+		}
 		ps = append(ps, fmt.Sprintf("%s=%q", k, m[k]))
+	}
+	if fillers > 0 {
+		ps = append(ps, fmt.Sprintf("+%d filler keys", fillers))
 	}
 	return "{" + strings.Join(ps, ", ") + "}"
 }
@@ -715,6 +779,9 @@ func TestVerifC19Syncer(t *testing.T) {
 		if h.nSameVal > 0 {
 			vf.Class("has-same-value-put")
 		}
+		if h.Wide > 0 {
+			vf.Class("wide-prefix>128-keys-with-first/middle/last-key-transactions")
+		}
 		if h.TailBurst > 0 {
 			for i := range cons {
 				if h.LagMs[i] >= 40 {
@@ -761,7 +828,7 @@ func TestVerifC19Syncer(t *testing.T) {
 		case "cut", "cutcompact":
 			faultNT = watchedChangesInCut > 0 || (writesBeforeFault > 0 && writesAfterFault > 0)
 		}
-		nontrivial := (writesAfterSync >= 3 && (h.nSameVal > 0 || h.nRecreate > 0)) || faultNT
+		nontrivial := (writesAfterSync >= 3 && (h.nSameVal > 0 || h.nRecreate > 0)) || faultNT || h.Wide > 0
 		vf.Case(nontrivial, h.String(), func() interface{} {
 			s := map[string]interface{}{"history": strings.Split(strings.TrimSpace(h.String()), "\n"), "final": vfMapStr(vfRestrict(final, base, true))}
 			for i, c := range cons {
